@@ -520,6 +520,13 @@ func (w *world) diskStampsIn(dir string) (map[string]bool, int) {
 
 var captureWorld func(*world)
 
+func minOutcomes(p params) int {
+	if p.rich {
+		return 2 // at least two different arrival orders must have been observed
+	}
+	return 1
+}
+
 func makeRun(p params) explore.RunFunc {
 	var refOnce sync.Once
 	var ref map[string]string
@@ -1279,6 +1286,15 @@ func (w *world) checkAtStop(g int, last bool) {
 		w.checkMetrics(g, acked, files)
 	}
 	w.outcome = append(w.outcome, fmt.Sprintf("g%d[ack=%d disk=%d lost=%d trans=%d]", g, nAck, nDisk, nLost, len(w.trans)))
+	if w.p.rich {
+		// vacuity guard of the statement-granularity scenarios: the order in which the records of the different connections
+		// reach the upstream is part of the outcome, so "many executions, one outcome" cannot hide that nothing overlapped
+		var order []string
+		for _, t := range w.trans {
+			order = append(order, strings.Join(t.stamps, "+"))
+		}
+		w.outcome = append(w.outcome, "arrival="+strings.Join(order, ","))
+	}
 }
 
 // checkOrder is C05: per (connection, key set) the first complete deliveries appear in arrival order.
@@ -1598,7 +1614,7 @@ func scenarios(prop string) []*explore.Scenario {
 		if thorough > -2 {
 			b["thorough"] = thorough
 		}
-		out = append(out, &explore.Scenario{Name: p.name, Bound: b, Run: makeRun(p), MinOutcomes: 1, SkipExhausted: p.rich})
+		out = append(out, &explore.Scenario{Name: p.name, Bound: b, Run: makeRun(p), MinOutcomes: minOutcomes(p), SkipExhausted: p.rich})
 	}
 	full := fakeup.Options{ConnectAlt: 2, SendAlt: 3, PingAlt: 1, AckAlt: 4, LateDelay: 25 * time.Second}
 	L := func(app string) op { return op{kind: "line", app: app} }
@@ -1801,13 +1817,16 @@ func fineScenarios(prop string, add func(p params, quick, thorough int)) {
 	}
 	healthy := fakeup.Options{}
 	// two connections, one record each, different key sets: the connection threads overlap in parser, extractions and key-set lookup
-	add(params{name: "fine/2conn-1rec-2key", rich: true, conns: [][]op{{R("appA", 1)}, {R("appB", 2)}}, gens: 1, chunkRecs: 1, memCap: 2, opt: healthy, metricKeys: "[host, class]"}, 1, 2)
+	add(params{name: "fine/2conn-1rec-2key", rich: true, conns: [][]op{{R("appA", 1)}, {R("appB", 2)}}, gens: 1, chunkRecs: 1, memCap: 2, opt: healthy, metricKeys: "[host, class]"}, 1, 1)
+	// (bound 2 of one such scenario is ~35 million executions of ~5000 steps: the thorough tier widens the traffic instead)
 	// the same key set from both connections: the pipeline of appA gets batches of both, the per-connection key-set caches collide
 	add(params{name: "fine/2conn-2rec-1key", rich: true, conns: [][]op{{R("appA", 1), R("appA", 3)}, {R("appA", 2), R("appA", 4)}}, gens: 1, chunkRecs: 2, memCap: 2, opt: healthy, metricKeys: "[host, class]"}, 1, 1)
 	// two key sets on each connection, crossed: both pipelines transform at the same time as both connection threads
 	add(params{name: "fine/2conn-2rec-2key-crossed", rich: true, conns: [][]op{{R("appA", 1), R("appB", 3)}, {R("appB", 2), R("appA", 4)}}, gens: 1, chunkRecs: 1, memCap: 2, opt: healthy, metricKeys: "[host, class]"}, 1, 1)
 	// a filtered record and a malformed line among them: drop counters and input drop counters under overlap
 	add(params{name: "fine/2conn-drop-and-bad", rich: true, conns: [][]op{{R("appA", 1), {kind: "bad", shape: "no-pri"}, R("appA", 3)}, {{kind: "line", app: "appA", drop: true, host: "host2", class: "Klass2", task: "task-2"}, R("appB", 4)}}, gens: 1, chunkRecs: 1, memCap: 2, opt: healthy, metricKeys: "[host]"}, 1, 1)
+	// thorough only: three records per connection over two key sets, pooled-size records among them
+	add(params{name: "fine/2conn-3rec-2key-pooled", rich: true, conns: [][]op{{R("appA", 1), func() op { o := R("appB", 3); o.pad = 1100; return o }(), R("appA", 5)}, {func() op { o := R("appB", 2); o.pad = 1100; return o }(), R("appA", 4), R("appB", 6)}}, gens: 1, chunkRecs: 2, memCap: 2, opt: healthy, metricKeys: "[host, class]"}, -2, 1)
 	if prop != "C19" {
 		// three connections (thorough only at bound 1: the third thread multiplies the points)
 		add(params{name: "fine/3conn-1rec", rich: true, conns: [][]op{{R("appA", 1)}, {R("appB", 2)}, {R("appA", 3)}}, gens: 1, chunkRecs: 1, memCap: 2, opt: healthy, metricKeys: "[host, class]"}, -2, 1)
